@@ -103,6 +103,19 @@ static void su_none(Scn &) {}
 RUN(r_create, mzd_t *A = mzd_init(s.m, s.n); mzd_free(A))
 RUN(r_window, mzd_t *W = mzd_init_window(s.M[0], 0, 0, s.m, s.n); vf_free_window(W))
 RUN(r_mzp, mzp_t *P = mzp_init(s.n); mzp_free(P))
+// more than 64 (and more than 128) simultaneously live headers: the header cache allocates further blocks
+static void r_many_headers(Scn &s) {
+  std::vector<mzd_t *> w;
+  int cnt = 70 + (s.k % 3) * 64;
+  for (int i = 0; i < cnt; i++) w.push_back(mzd_init_window(s.M[0], 0, 0, 1 + i % s.m, 1 + i % s.n));
+  for (int i = 0; i < cnt; i += 2) vf_free_window(w[i]);
+  for (int i = 1; i < cnt; i += 2) vf_free_window(w[i]);
+}
+static void r_many_matrices(Scn &s) {
+  std::vector<mzd_t *> w;
+  for (int i = 0; i < 70; i++) w.push_back(mzd_init(1 + i % 5, 1 + i % 130));
+  for (auto m : w) mzd_free(m);
+}
 RUN(r_mul_naive, mzd_free(mzd_mul_naive(nullptr, s.M[0], s.M[1])))
 RUN(r_addmul_naive, mzd_addmul_naive(s.M[2], s.M[0], s.M[1]))
 RUN(r_mul_m4rm, mzd_free(mzd_mul_m4rm(nullptr, s.M[0], s.M[1], s.k)))
@@ -158,6 +171,8 @@ static const Scenario SCN[] = {
     {"create", su_none, r_create, false},
     {"window", su_A, r_window, false},
     {"mzp_init", su_none, r_mzp, false},
+    {"many_live_windows", su_A, r_many_headers, false},
+    {"many_live_matrices", su_none, r_many_matrices, false},
     {"mul_naive", su_AB, r_mul_naive, false},
     {"addmul_naive", su_AB, r_addmul_naive, false},
     {"mul_m4rm", su_AB, r_mul_m4rm, false},
@@ -360,6 +375,14 @@ static std::vector<Case> enum_C20(const GenCtx &ctx) {
     }
   // allocation paths may depend on the size class of the request (block cache threshold, large-block shortcuts): the cheap
   // data-movement scenarios are also enumerated with operands whose data blocks exceed 1 MiB resp. the cache threshold
+  // deep Strassen recursion keeps more than 64 window headers alive
+  for (const char *name : {"mul_strassen", "addmul_strassen", "square_strassen"}) {
+    if (!ctx.tier) break;  // thorough tier only (hundreds of forks with 520^3 operands); the quick tier reaches the same
+                           // allocation site through the many_live_* scenarios
+    Case c;
+    c.sets("prop", "C20").sets("op", name).set("m", 520).set("l", 520).set("n", 520).set("k", 0).setu("seed", 99);
+    v.push_back(c);
+  }
   for (const char *name : {"create", "copy", "add", "transpose", "submatrix", "concat", "stack", "transpose_into_window", "mzp_init"}) {
     for (int big : {2944, 4160}) {
       Case c;
